@@ -21,6 +21,8 @@ struct ScriptCfg {
     int maxEdits = 10;
     bool ragged = false;
     bool nameVariants = false;    // parameter / group names that are case variants of other names, names and descriptions beyond what a file holds
+    bool framesParam = false;     // POINT:FRAMES edited by hand at the end
+    bool selfParam = false;       // a parameter of the object handed back to it by reference
     bool raggedSub = false;       // frames whose later sub-frame holds one channel fewer (accepted by frame(): only sub-frame 0 is checked)
 };
 
@@ -121,6 +123,7 @@ static rc::Gen<Op> gEditOp(const ScriptCfg &c) {
     }
     if (c.reload) w.push_back({2, op("reload", {})});
     if (c.print) w.push_back({1, op("print", {})});
+    if (c.selfParam) w.push_back({2, op("selfparam", {sized(0, 12), sized(0, 12), sized(3, 40)})});
     return weighted<Op>(w);
 }
 static rc::Gen<std::vector<Op>> one(rc::Gen<Op> o) { return g::map(o, [](Op x) { return std::vector<Op>{x}; }); }
@@ -155,6 +158,7 @@ rc::Gen<std::vector<Op>> genScriptOps(const ScriptCfg &c) {
     });
     std::vector<rc::Gen<std::vector<Op>>> parts = {setup, framesPart(c), edits};
     if (c.fillAtEnd) parts.push_back(one(op("gapfill", {seedv()})));
+    if (c.framesParam) parts.push_back(maybe(op("pframes", {g::elementOf(std::vector<long long>{-3, -1, 1, 2, 10})}), 30));
     return concat(parts);
 }
 
@@ -167,10 +171,11 @@ static ScriptCfg cfgFor(const std::string &id, int tier) {
     else if (id == "C06") { c.fillAtEnd = false; c.callerReuse = false; c.deviations = true; }   // accepted deviating frames (e.g. points only) must be stored exactly as given too
     else if (id == "C07") { c.deviations = true; c.fillAtEnd = false; }
     else if (id == "C08") { c.callerReuse = true; c.fillAtEnd = false; }
-    else if (id == "C09") { c.badParams = true; c.nameVariants = true; c.fillAtEnd = false; c.maxFrames = 2; }
+    else if (id == "C09") { c.badParams = true; c.nameVariants = true; c.selfParam = true; c.fillAtEnd = false; c.maxFrames = 2; }
     else if (id == "C10") { c.deviations = true; c.badParams = true; c.nameVariants = true; c.ragged = true; c.reload = true; c.fillAtEnd = false; }
-    else if (id == "C13") { c.deviations = true; c.badParams = true; c.callerReuse = true; c.reload = true; c.print = true; c.ragged = false; }
+    else if (id == "C13") { c.selfParam = true; c.deviations = true; c.badParams = true; c.callerReuse = true; c.reload = true; c.print = true; c.ragged = false; }
     else if (id == "C14") { c.print = false; c.raggedSub = true; }
+    else if (id == "C15") { c.framesParam = true; }
     return c;
 }
 
